@@ -59,14 +59,14 @@ type nodeAgg struct {
 }
 
 type aggFlow struct {
-	Key  int
-	Cat  int
-	End  uint32
-	N    [2]nodeAgg
-	Tot  [4]uint64 // common totals
-	Dlt  [2]uint64 // common deltas
-	Thr  [2]uint64 // common throughput
-	TCP  string
+	Key int
+	Cat int
+	End uint32
+	N   [2]nodeAgg
+	Tot [4]uint64 // common totals
+	Dlt [2]uint64 // common deltas
+	Thr [2]uint64 // common throughput
+	TCP string
 	// Ambig: the latest end time was reported by both nodes (tie): the common delta,
 	// throughput and tcpState may follow either of them.
 	Ambig bool
